@@ -8,7 +8,7 @@ from ..core import given_law
 from .. import gen
 
 RULE = ("binImgs: shapes (..., a*n, b*n) with 0-2 leading axes, n in 1..6, float and wide-int dtypes vs reshape-and-sum. "
-        "zoom/zoom_rbs: square arrays n in 6..20, orders 1,3,5, targets as int, (k,k) and (kx,ky); same-size identity, node "
+        "zoom/zoom_rbs: square and non-square arrays with sides order+1 .. order+16 (smallest sides most often), orders 1,3,5, targets as int, (k,k) and (kx,ky); same-size identity, node "
         "interpolation for targets q(n-1)+1, exact reproduction of row/column-anisotropic bivariate polynomials of degree "
         "<= order at linspace(0,n-1,k), complex = real + i imag, output shape = requested shape, both entry points agree. "
         "azimuthal_average: constant, bounds, own ring average (even sizes). encircled_energy: even sizes 4..64, random / "
@@ -66,8 +66,11 @@ def bin_body(ctx, case):
 
 @st.composite
 def zoom_cases(draw):
-    n = draw(st.integers(6, 20))
     order = draw(st.sampled_from([1, 3, 5]))
+    # every side the spline accepts: at least order + 1 samples (the smallest sides drawn most often), non-square too
+    off = st.sampled_from([0, 0, 0, 1, 1, 2, 3, 4, 5, 6, 7, 8, 10, 12, 15])
+    n = order + 1 + draw(off)
+    ny = n if draw(st.booleans()) else order + 1 + draw(off)
     tk = draw(st.sampled_from(["int", "pair_eq", "pair", "same", "nodes"]))
     if tk == "int":
         target = draw(st.integers(2, 40))
@@ -77,23 +80,23 @@ def zoom_cases(draw):
     elif tk == "pair":
         target = (draw(st.integers(2, 40)), draw(st.integers(2, 40)))
     elif tk == "same":
-        target = draw(st.sampled_from([n, (n, n)]))
+        target = draw(st.sampled_from([n, (n, n)])) if ny == n else (n, ny)
     else:
         q = draw(st.integers(2, 3))
-        target = q * (n - 1) + 1
+        target = q * (n - 1) + 1 if ny == n else (q * (n - 1) + 1, q * (ny - 1) + 1)
     # anisotropic bivariate polynomial of degree <= order in each variable (coefficients dyadic)
-    deg = draw(st.integers(0, order))
+    deg = draw(st.sampled_from([order, order] + list(range(order + 1))))
     cx = [draw(gen.dyadic(-2, 2, 4)) for _ in range(deg + 1)]
     cy = [draw(gen.dyadic(-2, 2, 4)) for _ in range(deg + 1)]
     cxy = draw(gen.dyadic(-1, 1, 4))
-    return {"n": n, "order": order, "target": target, "tk": tk, "cx": cx, "cy": cy, "cxy": cxy,
-            "noise": draw(gen.float_array((n, n), kind="dense")), "entry": draw(st.sampled_from(["zoom", "zoom_rbs"])),
+    return {"n": n, "ny": ny, "order": order, "target": target, "tk": tk, "cx": cx, "cy": cy, "cxy": cxy,
+            "noise": draw(gen.float_array((n, ny), kind="dense")), "entry": draw(st.sampled_from(["zoom", "zoom_rbs"])),
             "complex": draw(st.booleans()), "single": draw(st.sampled_from([False, False, True]))}
 
 
 def poly(case, X, Y):
     n = case["n"]
-    x, y = X / (n - 1.0), Y / (n - 1.0)
+    x, y = X / (n - 1.0), Y / (case.get("ny", n) - 1.0)
     p = sum(c * x ** k for k, c in enumerate(case["cx"])) + 2.0 * sum(c * y ** k for k, c in enumerate(case["cy"])) + case["cxy"] * x * y ** min(1, len(case["cy"]) - 1 if case["order"] > 1 else 1)
     return p
 
@@ -101,13 +104,14 @@ def poly(case, X, Y):
 def zoom_body(ctx, case):
     it = I()
     n, order, target = case["n"], case["order"], case["target"]
+    ny = case.get("ny", n)
     f = getattr(it, case["entry"])
     if isinstance(target, tuple):
         kx, ky = target
     else:
         kx = ky = target
-    ctx.case(case, nontrivial=(kx != ky) or order == 5, classes=[case["entry"], "order%d" % order, "target_" + case["tk"], "complex" if case["complex"] else "real", "single_precision" if case.get("single") else "double_precision"])
-    gx, gy = np.arange(n, dtype=float), np.arange(n, dtype=float)
+    ctx.case(case, nontrivial=(kx != ky) or order == 5, classes=[case["entry"], "order%d" % order, "side == order+1" if min(n, ny) == order + 1 else "side > order+1", "square_input" if n == ny else "non_square_input", "target_" + case["tk"], "complex" if case["complex"] else "real", "single_precision" if case.get("single") else "double_precision"])
+    gx, gy = np.arange(n, dtype=float), np.arange(ny, dtype=float)
     X, Y = np.meshgrid(gx, gy, indexing="ij")            # X = first axis coordinate
     arr = poly(case, X, Y)
     if case["complex"]:
@@ -120,7 +124,7 @@ def zoom_body(ctx, case):
     out = f(arr, target, order)
     ctx.equal(arr, a0, "%s modified its input" % case["entry"])
     ctx.require(out.shape == (kx, ky), "%s(target=%r) returned shape %s, expected %s" % (case["entry"], target, out.shape, (kx, ky)))
-    nx_, ny_ = np.linspace(0, n - 1, kx), np.linspace(0, n - 1, ky)
+    nx_, ny_ = np.linspace(0, n - 1, kx), np.linspace(0, ny - 1, ky)
     XN, YN = np.meshgrid(nx_, ny_, indexing="ij")
     want = poly(case, XN, YN)
     if case["complex"]:
@@ -130,16 +134,16 @@ def zoom_body(ctx, case):
     ctx.close(out, want, tolp, "%s reproduces a degree<=order polynomial at the new sample positions" % case["entry"], scale=sc, name="polynomial reproduction (%s)" % ("single" if single else "double"))
     # arbitrary data: identity / node interpolation / complex = real + i imag / entry points agree
     noise = case["noise"]
-    data = noise + 1j * noise[::-1, :].T if case["complex"] else noise
+    data = noise + 1j * noise[::-1, ::-1] if case["complex"] else noise
     if single:
         data = data.astype(np.complex64 if case["complex"] else np.float32)
     z = f(data, target, order)
     ctx.require(z.shape == (kx, ky), "%s shape on arbitrary data" % case["entry"])
-    if kx == n and ky == n:
+    if kx == n and ky == ny:
         ctx.close(z, data, 1e-10 if not single else 1e-6, "%s to the same size returns the input" % case["entry"], scale=1.0, name="same size identity")
-    if kx == ky and (kx - 1) % (n - 1) == 0:
-        q = (kx - 1) // (n - 1)
-        ctx.close(z[::q, ::q], data, 1e-10 if not single else 1e-6, "%s passes through the original samples when the new grid contains the old nodes" % case["entry"], scale=1.0, name="node interpolation")
+    if (kx - 1) % (n - 1) == 0 and (ky - 1) % (ny - 1) == 0:
+        qx, qy = (kx - 1) // (n - 1), (ky - 1) // (ny - 1)
+        ctx.close(z[::qx, ::qy], data, 1e-10 if not single else 1e-6, "%s passes through the original samples when the new grid contains the old nodes" % case["entry"], scale=1.0, name="node interpolation")
     if case["complex"]:
         ctx.close(z, f(data.real.copy(), target, order) + 1j * f(data.imag.copy(), target, order), 1e-12, "%s(%s) == zoom(real) + i zoom(imag)" % (case["entry"], data.dtype), scale=1.0, name="complex = real + i imag")
     other = it.zoom_rbs if case["entry"] == "zoom" else it.zoom
@@ -148,6 +152,8 @@ def zoom_body(ctx, case):
     ramp = X.copy()
     zr = f(ramp, target, order)
     ctx.close(zr, XN, 1e-9, "%s of a first-axis ramp is the first-axis ramp on the new grid" % case["entry"], scale=float(n))
+    rampy = Y.copy()
+    ctx.close(f(rampy, target, order), YN, 1e-9, "%s of a second-axis ramp is the second-axis ramp on the new grid" % case["entry"], scale=float(ny))
 
 
 def zoom_badorder_body(ctx, case):
